@@ -23,6 +23,18 @@ Cases
   redundant  (a flavour of big): 1.5 - 3 MiB (thorough: up to 8 MiB) of telemetry-like records that hardly
          change from one to the next, so that gzip / zstd shrink the file by a factor > 30 and ONE <= 64 KiB
          piece of the compressed file inflates to more than 1 MiB; compression None / gzip / zstd.
+  scale  (flavours longlines / huge of big, case['scale'] = True; same observation, model term and oracle as big):
+         longlines - 2-5 objects per file whose JSON line is 200 KiB .. 2 MiB (thorough: up to 4 MiB) of payload
+         characters, i.e. 3 .. 30 and more 64 KiB read chunks EACH, in DEcreasing / mixed (at least one descent) /
+         increasing order or all of one length over different alphabets, 0-3 small objects in between; the content
+         of every long string depends on the position and is nowhere periodic (random hex / base64, a decimal
+         arithmetic progression, numbered blocks of 1-4-byte characters, escapes, quotes, NUL); every compression
+         setting, builtin file | custom open_obj | short-read raw stream (thorough: also utf-16 / utf-32).
+         huge - 20-34 MiB (thorough 24-96 MiB) of near-identical records (lines of 10 KiB .. 1 MiB that differ by a
+         running number and the place of one marker) which gzip shrinks by a factor > 170 and zstd by hundreds to
+         thousands: the file is a few KB .. two read chunks and ONE <= 64 KiB piece of it inflates to more than
+         8 MiB (up to tens of MiB) of text; gzip and zstd (thorough: also 10-20 MiB uncompressed = hundreds of read
+         chunks), also through a raw stream handing out pieces of <= 20000 bytes / <= 64 KiB.
   doc    lines=False: the file holds ONE JSON document - one object written by the REAL dump_to_file (a single
          line with its newline), or written by the harness with json.dumps (compact or indent=1, i.e. over many
          lines; ensure_ascii or not; with or without a trailing newline) and compressed by the gzip module /
@@ -62,7 +74,16 @@ RULE = ('small: 0-6 objects (nested dicts/lists, 64-bit ints, floats incl. -0.0/
         'data - so that file.read delivers chunks of 1 byte .. 64 KiB cutting characters, escapes, compressed frames '
         'anywhere; redundant: 1.5-3 MiB (thorough up to 8 MiB) of telemetry-like records that compress by a factor '
         '> 30, compression None/gzip/zstd, so that one <= 64 KiB piece of the compressed file inflates past 1 MiB '
-        '(also through a raw stream); doc (lines=False): ONE document per file - written by dump_to_file (single '
+        '(also through a raw stream); scale family: (a) files with 2-5 objects whose line is 200 KiB - 2 MiB '
+        '(thorough up to 4 MiB; log-uniform) = 3 .. 30+ read chunks each, in decreasing | mixed | increasing order | '
+        'equal lengths over different alphabets, 0-3 small objects between them, position-dependent non-periodic '
+        'content (random hex | base64 | decimal progression | numbered blocks of multi-byte characters and escapes), '
+        'x compression None/gzip/zstd x builtin file | open_obj | short-read raw stream (quick: 2 per compression + 3; '
+        'thorough: 11 per compression + 5, utf-16/32 in a quarter); (b) 20-34 MiB (thorough 24-96 MiB) of '
+        'near-identical records (lines of 10 KiB - 1 MiB, log-uniform; 7 padding units incl. one with escapes, thorough 3 '
+        'more with 2/3/4-byte characters) that gzip shrinks > 170 x and zstd hundreds to thousands x, so that ONE <= 64 KiB piece '
+        'of the gzip / zstd file inflates to > 8 MiB of text (quick: 2 gzip + 2 zstd + 1 gzip through a raw stream; '
+        'thorough: 6 + 6 + 4 raw + 1 uncompressed file of 10-20 MiB); doc (lines=False): ONE document per file - written by dump_to_file (single '
         'line + newline) or by the harness with json.dumps (compact | indent=1, ensure_ascii | not, trailing newline | '
         'none; compressed with the gzip module / zstandard) - flavours rows (floats, hex tags) / blob (random base64) / '
         'nested / unicode / pad, text sizes 2 bytes .. 12 x 64 KiB so that the file ON DISK spans 1 .. 7 read chunks for '
@@ -134,6 +155,8 @@ def canon(v):
 
 def big_objs(spec):
     """deterministic object list for a big case: total utf-8 size about spec['size']"""
+    if spec['flavour'] in ('longlines', 'huge'):
+        return scale_objs(spec)
     rng = random.Random(spec['seed'])
     objs, size = [], 0
     st = spec.get('straddle')
@@ -167,6 +190,65 @@ def big_objs(spec):
             o['id'] = len(objs)
         objs.append(o)
         size += len(orjson.dumps(o)) + 1
+    return objs
+
+
+# ---- scale: lines far longer than the read chunk; files of tens of MiB that shrink to one read chunk -------
+KIB = 1024
+LONG_ALPHAS = ['hex', 'b64', 'uni', 'count']
+LONG_UNI = ['é', '€', '\U0001f600', 'a', 'b', ' ', '\n', '"', '\\', '中', '\x00', '\t', 'ü', '0', 'Z']
+HUGE_UNITS = ['0', '0,', 'ok;', '21.5 ', 'nominal|', '0000000000000001', 'all "good"\n', 'é0', '中-', '\U0001f321.']
+
+
+def long_payload(rng, n, alpha):
+    """a string of n characters whose content depends on the position and is nowhere periodic"""
+    if alpha == 'hex':         # keeps about 1/2 of its size under gzip / zstd
+        return '%0*x' % (n, rng.getrandbits(4 * n))
+    if alpha == 'b64':         # keeps about 3/4
+        return base64.b64encode(rng.randbytes(n * 3 // 4 + 3)).decode()[:n]
+    if alpha == 'count':       # an arithmetic progression in decimal: shrinks by a factor 3-5, still no two places alike
+        start, step = rng.randrange(10 ** 9), rng.randrange(1, 1000)
+        return ','.join(str(start + i * step) for i in range(n // 10 + 2))[:n]
+    # uni: 1/2/3/4-byte characters, escapes, quotes, NUL; blocks from a pool, each followed by its running number
+    pool = [''.join(rng.choice(LONG_UNI) for _ in range(rng.randrange(20, 200))) for _ in range(61)]
+    parts, size = [], 0
+    while size < n:
+        parts.append('%s%d' % (rng.choice(pool), len(parts)))
+        size += len(parts[-1])
+    return ''.join(parts)[:n]
+
+
+def scale_objs(spec):
+    """deterministic object list of a scale case (flavour longlines | huge), from spec['seed'] only"""
+    rng = random.Random(spec['seed'])
+    objs = []
+
+    def smalls(n):
+        for _ in range(n):
+            k = len(objs)
+            objs.append({'id': k, 'name': 'small-%d' % k, 'v': [k, k / 2, None, True], 'é': rng.choice(STR)})
+    if spec['flavour'] == 'longlines':
+        # several objects whose line is far longer than the 64 KiB read chunk, in the order given by the case
+        for n, alpha in spec['lines']:
+            smalls(rng.randrange(spec['smalls'] + 1))
+            objs.append({'id': len(objs), 'name': 'long-%d' % len(objs), 'payload': long_payload(rng, n, alpha),
+                         'after': [n, -0.0, None]})
+        smalls(rng.randrange(spec['smalls'] + 1))
+        return objs
+    # huge: near-identical telemetry-like records of about spec['line'] bytes each, spec['size'] bytes in all; what
+    # differs from one record to the next is the running number and the place of one marker inside the padding
+    unit = HUGE_UNITS[spec['unit']]
+    reps = max(1, spec['line'] // len(unit.encode('utf-8')))
+    pad = unit * reps
+    size = 0
+    while size < spec['size']:
+        k = len(objs)
+        at = (k * 7919 + spec['seed']) % (len(pad) + 1)
+        o = {'seq': k, 'sensor': 's-%d' % (k % 5), 'status': 'ok', 'value': 21.5, 'limits': {'lo': -40.0, 'i64': 2 ** 63 - 1},
+             'mask': pad[:at] + '<%d>' % k + pad[at:], 'flags': [0, 0, 0, None, True, -0.0]}
+        objs.append(o)
+        size += len(o['mask']) * len(unit.encode('utf-8')) // len(unit) + 120
+    objs.append({'seq': len(objs), 'sensor': 'last', 'status': None})
     return objs
 
 
@@ -233,6 +315,77 @@ def gen_redundant(rng, tier, comp, raw=None):
     if tier != 'thorough':
         c['enc'] = 'utf-8'
     return c
+
+
+# ---- scale family (kind big, flavours longlines / huge) ---------------------------------------
+def gen_longlines(rng, tier, comp, order, raw=None):
+    """2-5 objects whose JSON line is 200 KiB .. 2 MiB (thorough: a third of the files up to 4 MiB) long (payload
+    characters; log-uniform), i.e. 3 .. 30 and more read chunks each, in DEcreasing | mixed (at least one descent) | increasing order, or all of the same length but
+    over different alphabets; 0..3 small objects between them; the content of every long string depends on the
+    position (random hex / base64, an arithmetic progression, numbered blocks of multi-byte characters and escapes)"""
+    m = rng.choice([2, 3, 3, 4] if tier != 'thorough' else [2, 3, 4, 5])
+    sizes = sorted(int(200 * KIB * (10 if tier != 'thorough' else rng.choice([10, 10, 20])) ** rng.random()) for _ in range(m))
+    if tier != 'thorough':            # quick: at most about 4 MiB per file
+        while sum(sizes) > 4 * MIB:
+            sizes[-1] = sizes[-1] * 2 // 3
+            sizes.sort()
+    if order == 'dec':
+        sizes.reverse()
+    elif order == 'mixed':
+        for _ in range(50):
+            rng.shuffle(sizes)
+            if any(a > b for a, b in zip(sizes, sizes[1:])) and (m < 3 or any(a < b for a, b in zip(sizes, sizes[1:]))):
+                break
+    elif order == 'same':
+        sizes = [sizes[-1] if tier == 'thorough' else min(sizes[-1], 4 * MIB // m)] * m
+    alphas = [rng.choice(LONG_ALPHAS) for _ in range(m)]
+    if order == 'same':               # same number of characters, different alphabets (different numbers of bytes)
+        alphas = [LONG_ALPHAS[(i + rng.randrange(4)) % 4] if i else 'uni' for i in range(m)]
+        rng.shuffle(alphas)
+    return {'kind': 'big', 'scale': True, 'flavour': 'longlines', 'order': order, 'seed': rng.randrange(10 ** 6),
+            'lines': [[n, a] for n, a in zip(sizes, alphas)], 'smalls': rng.choice([0, 1, 3]), 'size': sum(sizes),
+            'comp': comp, 'enc': 'utf-8' if tier != 'thorough' else rng.choice(['utf-8'] * 6 + ['utf-16', 'utf-32']),
+            'skip': rng.choice([0, 0, 0, 1]), 'open_obj': raw is not None or rng.random() < 0.2, 'ignore': False, 'raw': raw}
+
+
+def gen_huge(rng, tier, comp, size=None, raw=None):
+    """tens of MiB of near-identical records (lines of 10 KiB .. 1 MiB, log-uniform): gzip shrinks them by a factor of several
+    hundred, zstd by thousands, so that the whole file is a few tens of KB and ONE <= 64 KiB piece of it inflates
+    to more than 8 MiB of text"""
+    if size is None:
+        size = rng.randrange(20 * MIB, 34 * MIB) if tier != 'thorough' else rng.randrange(24 * MIB, rng.choice([48, 72, 96]) * MIB)
+    return {'kind': 'big', 'scale': True, 'flavour': 'huge', 'seed': rng.randrange(10 ** 6), 'size': size,
+            'line': int(10 * KIB * 100 ** rng.random()), 'unit': rng.randrange(len(HUGE_UNITS) - (3 if tier != 'thorough' else 0)),
+            'comp': comp, 'enc': 'utf-8', 'skip': rng.choice([0, 0, 2]), 'open_obj': raw is not None or rng.random() < 0.2,
+            'ignore': False, 'raw': raw}
+
+
+def gen_scale(rng, tier):
+    """the scale family (every choice from rng)"""
+    if tier == 'search':
+        return []
+    q = tier == 'quick'
+    out = []
+    for comp in (None, 'gzip', 'zstd'):
+        for order in (('dec', 'mixed') if q else ('dec', 'mixed') * 4 + ('inc', 'same', 'same')):
+            out.append(gen_longlines(rng, tier, comp, order))
+    for order in ('same', 'inc'):
+        for comp in ((rng.choice([None, 'gzip', 'zstd']),) if q else ()):
+            out.append(gen_longlines(rng, tier, comp, order))
+    # ... and through a raw stream returning short reads
+    for comp in ((rng.choice([None, 'gzip', 'zstd']),) if q else (None, 'gzip', 'zstd', 'gzip', 'zstd')):
+        out.append(gen_longlines(rng, tier, comp, rng.choice(['dec', 'mixed']),
+                                 raw={'seed': rng.randrange(10 ** 6), 'hi': rng.choice([20000, READ, 100000]), 'full': 0.3}))
+    for comp in ('gzip', 'zstd'):
+        for _ in range(2 if q else 6):
+            out.append(gen_huge(rng, tier, comp))
+    # pieces of <= 20000 bytes / <= 64 KiB of the compressed file handed out by a raw stream
+    for comp in (('gzip',) if q else ('gzip', 'zstd', 'gzip', 'zstd')):
+        out.append(gen_huge(rng, tier, comp, raw={'seed': rng.randrange(10 ** 6), 'hi': rng.choice([20000, READ]),
+                                                  'full': 0.3}))
+    if not q:                             # the same kind of payload without compression: hundreds of read chunks
+        out.append(gen_huge(rng, tier, None, size=rng.randrange(10 * MIB, 20 * MIB)))
+    return out
 
 
 # ---- lines=False: one document per file ------------------------------------------------------
@@ -402,6 +555,8 @@ def generate(rng, tier):
                                                              'hi': rng.choice([4096, 20000, READ]), 'full': 0.3}))
     # lines=False: one document per file (generated last, from a stream derived from rng)
     cases += gen_docs(random.Random(rng.randrange(2 ** 62)), tier)
+    # scale family (after everything else, from its own stream derived from rng)
+    cases += gen_scale(random.Random(rng.randrange(2 ** 62)), tier)
     return cases
 
 
@@ -646,13 +801,24 @@ def oracle(case, obs):
             return {'sig': 'json:doc-differs', 'what': '%d items read back instead of exactly the one document (%s)'
                     % (obs['n_items'], where)}
         return None
+    where = scale_where(case, obs) if case.get('scale') else ''
     if obs['load_end'] != ['completed']:
-        return {'sig': 'json:load-error', 'what': 'load_from_file ended with %s after %d of %d items'
-                % (obs['load_end'], obs['n_items'], max(0, obs['n_objs'] - case['skip']))}
+        return {'sig': 'json:load-error', 'what': 'load_from_file ended with %s after %d of %d items%s'
+                % (obs['load_end'], obs['n_items'], max(0, obs['n_objs'] - case['skip']), where)}
     if not obs['items_equal']:
         return {'sig': 'json:items-differ', 'what': '%d items read back for %d objects written (skip %d); first '
-                'difference at item %s' % (obs['n_items'], obs['n_objs'], case['skip'], obs['first_diff'])}
+                'difference at item %s%s' % (obs['n_items'], obs['n_objs'], case['skip'], obs['first_diff'], where)}
     return None
+
+
+def scale_where(case, obs):
+    """one-line description of a scale case for the oracle message"""
+    if case['flavour'] == 'longlines':
+        return ' (compression=%s, %d bytes on disk; long lines of %s payload characters in this order)' % (
+            case['comp'], obs['fsize'], ', '.join('%d [%s]' % (n, a) for n, a in case['lines']))
+    return ' (compression=%s, %d bytes on disk for about %d bytes of near-identical lines of about %d bytes; ' \
+           'largest text chunk out of one read chunk: %d characters)' % (
+               case['comp'], obs['fsize'], case['size'], case['line'], obs.get('max_chunk_chars', -1))
 
 
 def nontrivial(case, obs):
@@ -666,6 +832,15 @@ def nontrivial(case, obs):
     return len(case['objs']) >= 2 and (any(ord(c) > 127 for c in t) or '\\n' in t)
 
 
+def silent_run(lens_out):
+    """the longest run of consecutive text chunks during which line.unframe emitted nothing"""
+    best = cur = 0
+    for x in lens_out[:-1]:          # the last entry is what completion emitted
+        cur = 0 if x else cur + 1
+        best = max(best, cur)
+    return best
+
+
 def describe(cases, obs):
     doc = {'by_comp': {}, 'by_writer': {}, 'by_flavour': {}, 'file_larger_than_one_64KiB_read_chunk_by_comp': {},
            'max_file_size_by_comp': {}, 'max_64KiB_chunks_on_disk': 0, 'raw_stream': 0, 'indented_multi_line_document': 0,
@@ -677,7 +852,22 @@ def describe(cases, obs):
          'raw_stream_cases (open_obj reader returns short reads)': {'small': 0, 'hand': 0, 'big': 0, 'doc': 0},
          'raw_stream_by_comp': {}, 'short_reads_before_eof_total': 0, 'max_read_calls_one_file': 0,
          'redundant_payload_cases': {}, 'max_uncompressed_text_chars': 0,
-         'max_text_chars_out_of_one_read_chunk': {}}
+         'max_text_chars_out_of_one_read_chunk': {},
+         'scale_cases': {
+             'long_lines (several 200 KiB - 2 MiB lines per file)': {
+                 'by_comp': {}, 'by_order': {}, 'raw_stream': 0, 'min_line_chars': None, 'max_line_chars': 0,
+                 'long_lines_total': 0, 'max_consecutive_text_chunks_without_a_line_end': 0,
+                 'files_where_a_later_long_line_is_shorter_than_an_earlier_one': 0,
+                 'files_where_a_later_long_line_is_longer_than_an_earlier_one': 0, 'by_alphabet': {}},
+             'huge_redundant (tens of MiB that shrink to about one read chunk)': {
+                 'by_comp': {}, 'raw_stream': 0, 'min_text_chars': None, 'max_text_chars': 0, 'min_line_bytes': None,
+                 'max_line_bytes': 0, 'min_ratio_text_over_file_by_comp': {}, 'max_file_size_by_comp': {},
+                 'one_read_chunk_inflated_past_8MiB_by_comp': {}, 'max_text_chars_out_of_one_read_chunk_by_comp': {}}}}
+    sl = d['scale_cases']['long_lines (several 200 KiB - 2 MiB lines per file)']
+    sh = d['scale_cases']['huge_redundant (tens of MiB that shrink to about one read chunk)']
+
+    def lo(a, b):
+        return b if a is None else min(a, b)
     for c, o in zip(cases, obs):
         d[c['kind']] += 1
         d['comp'][str(c['comp'])] = d['comp'].get(str(c['comp']), 0) + 1
@@ -715,6 +905,35 @@ def describe(cases, obs):
             doc['file_size_exactly_k_x_64KiB_(-1|0|+1)'] += 1 if c['comp'] is None and (o['fsize'] + 1) % READ <= 2 \
                 and o['fsize'] > 2 else 0
             doc['max_read_calls_of_one_readall'] = max(doc['max_read_calls_of_one_readall'], len(o.get('caps', [])))
+        if c.get('scale') and c['flavour'] == 'longlines':
+            ns = [n for n, _ in c['lines']]
+            sl['by_comp'][comp] = sl['by_comp'].get(comp, 0) + 1
+            sl['by_order'][c['order']] = sl['by_order'].get(c['order'], 0) + 1
+            sl['raw_stream'] += 1 if c.get('raw') else 0
+            sl['min_line_chars'], sl['max_line_chars'] = lo(sl['min_line_chars'], min(ns)), max(sl['max_line_chars'], max(ns))
+            sl['long_lines_total'] += len(ns)
+            sl['max_consecutive_text_chunks_without_a_line_end'] = max(
+                sl['max_consecutive_text_chunks_without_a_line_end'], silent_run(o['lens_out']))
+            sl['files_where_a_later_long_line_is_shorter_than_an_earlier_one'] += 1 if any(
+                ns[j] < ns[i] for i in range(len(ns)) for j in range(i + 1, len(ns))) else 0
+            sl['files_where_a_later_long_line_is_longer_than_an_earlier_one'] += 1 if any(
+                ns[j] > ns[i] for i in range(len(ns)) for j in range(i + 1, len(ns))) else 0
+            for _, a in c['lines']:
+                sl['by_alphabet'][a] = sl['by_alphabet'].get(a, 0) + 1
+        if c.get('scale') and c['flavour'] == 'huge':
+            chars = sum(sum(x) + len(x) - 1 for x in o['segs'])
+            sh['by_comp'][comp] = sh['by_comp'].get(comp, 0) + 1
+            sh['raw_stream'] += 1 if c.get('raw') else 0
+            sh['min_text_chars'], sh['max_text_chars'] = lo(sh['min_text_chars'], chars), max(sh['max_text_chars'], chars)
+            sh['min_line_bytes'], sh['max_line_bytes'] = lo(sh['min_line_bytes'], c['line']), max(sh['max_line_bytes'], c['line'])
+            m = sh['min_ratio_text_over_file_by_comp']
+            m[comp] = lo(m.get(comp), chars // max(1, o['fsize']))
+            m = sh['max_file_size_by_comp']
+            m[comp] = max(m.get(comp, 0), o['fsize'])
+            m = sh['one_read_chunk_inflated_past_8MiB_by_comp']
+            m[comp] = m.get(comp, 0) + (1 if o['max_chunk_chars'] > 8 * MIB and c['comp'] else 0)
+            m = sh['max_text_chars_out_of_one_read_chunk_by_comp']
+            m[comp] = max(m.get(comp, 0), o['max_chunk_chars'])
         if c['kind'] == 'big':
             if c['flavour'] == 'redundant':
                 d['redundant_payload_cases'][comp] = d['redundant_payload_cases'].get(comp, 0) + 1
@@ -793,7 +1012,12 @@ CLAIM = {
             '(io.RawIOBase) stream that returns short reads of 1 byte .. 64 KiB drawn from the PRNG of the case, for every '
             'compression setting, on small and multi-chunk files - and large highly compressible payloads (1.5-3 MiB, '
             'thorough up to 8 MiB, of near-identical records, ratio > 30) for which one <= 64 KiB piece of the gzip / zstd '
-            'file inflates to more than 1 MiB of text. The model is tied to the code by taps around '
+            'file inflates to more than 1 MiB of text - and a scale family: files holding 2-5 objects whose line is '
+            '200 KiB - 2 MiB long (thorough up to 4 MiB; each spans 3 .. 30 and more read chunks) in decreasing, mixed and '
+            'increasing order of length with position-dependent content, for every compression setting, builtin file, '
+            'custom open_obj and short-read raw streams; and files of 20-34 MiB (thorough up to 96 MiB) of near-identical '
+            'records that shrink to a few KB .. two read chunks, so that one <= 64 KiB piece of the gzip / zstd file '
+            'inflates to more than 8 MiB (up to tens of MiB) of text. The model is tied to the code by taps around '
             'line.unframe and file.read: lines per chunk recomputed by Framing.Line in Coq on the actual text chunks '
             '(small files) or by its length abstraction (proved equal to Framing.Line on lengths) on big files; the '
             'sizes of the chunks file.read delivers recomputed by the batch cutting (buffered file) or by raw_sizes from '
@@ -823,5 +1047,6 @@ CLAIM = {
     'technique': 'Coq proof (composition of stage laws as Section hypotheses; reuse of the line-framing round-trip '
                  'theorem and of the batch-cutting theorem for file.read; induction on the read calls for raw streams) + '
                  'vm_compute correspondence via taps + differential testing of the libraries (short-read raw streams, '
-                 'highly compressible multi-MiB payloads, single documents larger than the read chunk with lines=False)',
+                 'highly compressible multi-MiB payloads, single documents larger than the read chunk with lines=False, '
+                 'scale family: lines of MiB size in decreasing / mixed order, tens of MiB out of one compressed read chunk)',
 }
